@@ -18,6 +18,20 @@ import (
 	"github.com/sanonone/kektordb/pkg/engine"
 )
 
+// stubEmbedder stands for the embedding model a deployment configures (routes that embed a query
+// text, like the memory transfer, refuse to work without one): every text maps to one fixed
+// vector of the fixture's dimension.
+type stubEmbedder struct{}
+
+func (stubEmbedder) Embed(text string) ([]float32, error) { return []float32{1, 0}, nil }
+func (stubEmbedder) EmbedBatch(texts []string) ([][]float32, error) {
+	out := make([][]float32, len(texts))
+	for i := range out {
+		out[i] = []float32{1, 0}
+	}
+	return out, nil
+}
+
 func jsonOf(v any) string {
 	b, _ := json.Marshal(v)
 	return string(b)
@@ -50,7 +64,7 @@ func OpenEnvAuth(dir string, authToken string) (*Env, error) {
 	if err != nil {
 		return nil, err
 	}
-	srv, err := server.NewServer(e, ":0", "", authToken, dir, "", nil)
+	srv, err := server.NewServer(e, ":0", "", authToken, dir, "", stubEmbedder{})
 	if err != nil {
 		e.Close()
 		return nil, err
@@ -186,15 +200,21 @@ func (v *Env) Digest() map[string]string {
 	kv := v.E.DB.GetKVStore()
 	keys := kv.Keys()
 	sort.Strings(keys)
-	var b strings.Builder
+	var b, a strings.Builder
 	for _, k := range keys {
-		if strings.HasPrefix(k, "_sys_auth::ecdsa") {
-			continue
-		}
 		val, _ := kv.Get(k)
+		if strings.HasPrefix(k, "_sys_auth::") {
+			// the authentication state (signing key, revocation list, policies): its own entry,
+			// so that a change can be told from an ordinary key-value write
+			fmt.Fprintf(&a, "%s=%x;", k, sha256.Sum256(val))
+			if strings.HasPrefix(k, "_sys_auth::ecdsa") {
+				continue
+			}
+		}
 		fmt.Fprintf(&b, "%s=%x;", k, sha256.Sum256(val))
 	}
 	out["#kv"] = b.String()
+	out["#auth"] = a.String()
 	return out
 }
 
